@@ -251,7 +251,11 @@ func c16Composite(maxPrefixTokens int, nested bool) *c16Comp {
 				cp.groups = append(cp.groups, "{"+strings.Join(cur, ",")+"}")
 				return
 			}
-			for _, a := range alts {
+			use := alts
+			if n == 3 {
+				use = alts[:3] // the nested alternative only in two-alternative groups
+			}
+			for _, a := range use {
 				rec(append(cur[:len(cur):len(cur)], a))
 			}
 		}
@@ -259,8 +263,8 @@ func c16Composite(maxPrefixTokens int, nested bool) *c16Comp {
 	}
 	seqGroups := []string{"{0..1}", "{a..b}", "{9..0..9}"}
 	cp.groups = append(cp.groups, seqGroups...)
-	cp.desc = fmt.Sprintf("prefix = every sequence of <=%d tokens over %q (%d distinct strings), group = {x,y} and {x,y,z} with every alternative in %q plus %q (%d groups), suffix = every sequence of <=2 tokens over %q (%d distinct strings)",
-		maxPrefixTokens, prefixTokens, len(cp.prefixes), alts, seqGroups, len(cp.groups), suffixTokens, len(cp.suffixes))
+	cp.desc = fmt.Sprintf("prefix = every sequence of <=%d tokens over %q (%d distinct strings), group = {x,y} with every alternative in %q, {x,y,z} with every alternative in %q, plus %q (%d groups), suffix = every sequence of <=2 tokens over %q (%d distinct strings)",
+		maxPrefixTokens, prefixTokens, len(cp.prefixes), alts, alts[:3], seqGroups, len(cp.groups), suffixTokens, len(cp.suffixes))
 	return cp
 }
 
